@@ -172,6 +172,11 @@ def run_single(ctx, rng, N):
                 ra = xe.single.EOFRotator(n_modes=2).fit(m0)
                 rb = xe.single.EOFRotator(n_modes=2).fit(m2)
                 compare(ctx, "C07:EOFRotator:names", "EOFRotator on a model with other dimension names", results(ra, "single"), results(rb, "single"), replay)
+            except RuntimeError as e:
+                if "converge" in str(e):
+                    ctx.dist["rotation-did-not-converge"] += 1      # a refusal of the iteration on this data, whatever the names
+                else:
+                    ctx.violation("C07:EOFRotator:names:error", "EOFRotator on a model with other dimension names raised %r" % (e,), replay)
             except Exception as e:
                 ctx.violation("C07:EOFRotator:names:error", "EOFRotator on a model with other dimension names raised %r" % (e,), replay)
             try:
